@@ -125,14 +125,20 @@ func C02Scenarios() []*Plan {
 	// and the new branch is longer: the step that unwinds it records a
 	// position number no stale row has, so nothing but the transaction
 	// boundaries keeps old and new rows apart
-	p = c02Base("reorg depth 1 after following the head, batch 4, longer branch", 4, 1)
-	p.Decls = []*model.Decl{logDecl("ig0", 3, true)}
-	p.Content.Events = []EventSpec{{Event: transferEvent()}}
-	p.ScriptChain = []ScriptedChain{{AtPos: 8, Src: "s0", Action: "grow", N: 1}, {AtPos: 9, Src: "s0", Action: "reorg", Depth: 1, NewLen: 3}}
-	p.Faults.MaxReorgs = 1
-	p.Faults.MaxReorgDepth = 1
-	p.Faults.MaxGrow = 1
-	add(p)
+	// (four chains: whether rows of the replaced block and of its replacement
+	// collide on the table's unique key, which would hide a surviving orphan
+	// behind a duplicate-key error, depends on where their logs sit)
+	for k := 0; k < 4; k++ {
+		p = c02Base(fmt.Sprintf("reorg depth 1 after following the head, batch 4, longer branch (chain %d)", k), 4, 1)
+		p.Seed += uint64(k) * 7919
+		p.Decls = []*model.Decl{logDecl("ig0", 3, true)}
+		p.Content.Events = []EventSpec{{Event: transferEvent()}}
+		p.ScriptChain = []ScriptedChain{{AtPos: 8, Src: "s0", Action: "grow", N: 1}, {AtPos: 9, Src: "s0", Action: "reorg", Depth: 1, NewLen: 3}}
+		p.Faults.MaxReorgs = 1
+		p.Faults.MaxReorgDepth = 1
+		p.Faults.MaxGrow = 1
+		add(p)
+	}
 	return out
 }
 
@@ -180,6 +186,19 @@ func c02Init(t *testing.T) {
 				}
 				for _, kind := range kinds {
 					c02Cases = append(c02Cases, c02Case{si, ScriptedFault{Seam: "pg", Ordinal: k, Kind: kind}})
+				}
+			}
+			// the same faults once more at every commit, addressed as "the n-th
+			// commit": the transaction boundaries are what the property is about
+			ncommit := 0
+			for _, cls := range res.PGClasses {
+				if cls == "commit" {
+					ncommit++
+				}
+			}
+			for n := 0; n < ncommit; n++ {
+				for _, kind := range pgKindsParked {
+					c02Cases = append(c02Cases, c02Case{si, ScriptedFault{Seam: "pg", Ordinal: -1, Class: "commit", Nth: n, Kind: kind}})
 				}
 			}
 			for k, n := range res.HTTPSizes {
